@@ -43,6 +43,8 @@ Lemma plain_scanAt s : plain s (scanAt s). Proof. unfold scanAt. plain_tac. Qed.
 Lemma plain_scanEquals s : plain s (scanEquals s). Proof. unfold scanEquals. plain_tac. Qed.
 Lemma plain_scanSign s : plain s (scanSign s). Proof. unfold scanSign. plain_tac. Qed.
 Lemma plain_scanText s : plain s (scanText s). Proof. unfold scanText. plain_tac. Qed.
+Lemma plain_scanSingle ty v s : ty <> TNewline -> ty <> TIndent -> plain s (scanSingle ty v s).
+Proof. intros A B. unfold scanSingle, plain. cbn [fst snd tk_type tk_pos tok position tp_line]. rewrite lline_advance, at_start_advance. repeat split; auto. Qed.
 
 Lemma plain_scanDirectiveOrAccount s : plain s (scanDirectiveOrAccount s).
 Proof.
@@ -93,6 +95,7 @@ Proof.
     first [ apply plain_scanComment | apply plain_scanCode | apply plain_scanAt | apply plain_scanEquals | apply plain_scanStatus
           | apply plain_scanCurrencySymbol | apply plain_scanQuotedCommodity | apply plain_scanSign | apply plain_scanText
           | apply plain_scanDate | apply plain_scanNumber | apply plain_scanAccount | apply plain_scanCommodityOrText
+          | apply plain_scanSingle; discriminate
           | plain_tac ].
 Qed.
 
